@@ -4,10 +4,19 @@ from gens_codec import hx, image_py, enc_header_py
 from gens_cli import fill_ops, CLI_LAYOUTS
 
 
+def waitopen_lines(rnd):
+    """a multi-page single-archive file, partly filled, then an Open that has to wait for a writer"""
+    layout = [(1, rnd.pick([400, 700, 1200]))]
+    now = 1700000000 + rnd.randint(0, 10 ** 6)
+    pts = [(now - j, small_value(rnd)) for j in range(layout[0][1]) if rnd.chance(0.5)]
+    return ["create w %s m 2 x 3f000000" % fmt_layout(layout),
+            "many w 0 %d %d %s" % (now, len(pts), " ".join("%d %016x" % tv for tv in pts)), "sync w", "drop w", "waitopen w %d" % now]
+
+
 def gen_c13(rnd, n, thorough=False):
     cases = []
     for c in range(n):
-        kind = rnd.pick(['failed_open', 'failed_open', 'block', 'proc', 'sessions'])
+        kind = rnd.pick(['failed_open', 'failed_open', 'block', 'proc', 'sessions', 'waitopen'])
         lines = []
         if kind == 'failed_open':
             # every way Open can fail after the descriptor was obtained (and a control that succeeds)
@@ -35,6 +44,9 @@ def gen_c13(rnd, n, thorough=False):
         elif kind in ('block', 'proc'):
             layout = [(1, 20), (5, 10)]
             lines += ["create f %s m 2 x 3f000000" % fmt_layout(layout), "sync f", "drop f", "lock%s f" % kind]
+            tags = {'kind': kind}
+        elif kind == 'waitopen':
+            lines += waitopen_lines(rnd)
             tags = {'kind': kind}
         else:
             layout = [(1, rnd.pick([400, 700, 1200]))]          # several 4 KiB pages
